@@ -7,6 +7,16 @@ COMMON_ASSUMPTIONS = [
 ]
 
 PROPS = {
+    "C18": {
+        "kinds": [("C18A", 600, 8000), ("C18N", 300, 3000)],
+        "rule": "C18A: one sequence of 1-7 Architecture builder calls (valid and invalid, also after argmax), current_shape after each, real distillation of the accepted architecture, every split point (up to 5) with the composed halves evaluated at 8 inputs, one random extract_range; C18N: one npz file written in the numpy dialect (1-12 linear layers, widths 1-3, relu / hard_tanh / hard_sigmoid markers, padded and unpadded indices reaching 10 and above, unrelated entries, shuffled file order) read back with read_layers; non-trivial = at least 3 queued layers / 6 entries; distinct by case text",
+        "assumptions": COMMON_ASSUMPTIONS + ["zip / npy decoding and the regex engine are external: the model starts from the list of entry names and decoded arrays", "inputs whose exact evaluation comes within 1e-9 of a breakpoint or tie in networks containing the non-dyadic hard-sigmoid slope are excluded (rounding clause of C01)"],
+    },
+    "C01": {
+        "kinds": [("H01", 400, 5000), ("H01T", 0, 2500)],
+        "rule": "one network per case: 1-2 (thorough: up to 3) hidden layers of width 1-3 with per-neuron ReLU / leaky ReLU / hard tanh / hard sigmoid, optional output layer and argmax / class head, optional polyhedral precondition (box, random, with an empty tail); distilled by the real afftree_from_layers and, step by step, by the public operations the builder uses (each step replayed by the model); 14 inputs (6 on hyperplanes of the precondition) compared with the direct evaluation of the layer list; non-trivial = at least 3 steps or a pruning step; distinct by case text",
+        "assumptions": COMMON_ASSUMPTIONS + ["the model of afftree_from_layers is the sequence of public operations (apply_func / compose::<false> + infeasible_elimination / compose::<true>); the harness checks on every case that the builder's tree equals the result of that sequence", "rounding clause (non-dyadic weights, inputs away from breakpoints): cases containing the hard-sigmoid slope 1/6 are compared up to relative 2^-40 and reported INEXACT; no claim is made for inputs within rounding distance of a breakpoint"],
+    },
     "C09": {
         "kinds": [("C09", 800, 10000), ("C09T", 0, 4000)],
         "rule": "one random binary tree (total/partial, index holes) with a skip schedule for polyhedra(), the plain polyhedra_iter() stream, and 10 inputs (half on hyperplanes) for find_terminal; regions compared with the closed path half-spaces, routing both ways, disjoint interiors decided exactly for up to 8 terminals; non-trivial = at least 5 nodes; distinct by case text",
